@@ -16,7 +16,7 @@ TESTS[C05]="tangelo/toolboxes/qubit_mappings/tests tangelo/toolboxes/ansatz_gene
 TESTS[C10]="tangelo/linq/tests tangelo/algorithms/projective/tests/test_iqpe.py tangelo/toolboxes/post_processing/tests/test_post_selection.py"
 TESTS[C12]="tangelo/toolboxes/ansatz_generator/tests tangelo/algorithms/variational/tests/test_vqe_solver.py"
 TESTS[C14]="tangelo/toolboxes/operators/tests tangelo/algorithms/variational/tests/test_iqcc_solver.py tangelo/algorithms/variational/tests/test_iqcc_ilc_solver.py"
-TESTS[C15]="tangelo/problem_decomposition/tests/dmet tangelo/problem_decomposition/tests/oniom"
+TESTS[C15]="tangelo/problem_decomposition/tests/dmet"
 TESTS[C17]="tangelo/linq/tests"
 TESTS[C19]="tangelo/linq/tests tangelo/algorithms/projective/tests/test_qite.py"
 TESTS[C20]="tangelo/linq/helpers/circuits/tests tangelo/linq/tests tangelo/algorithms/projective/tests/test_iqpe.py"
@@ -28,7 +28,7 @@ for d in /verif/seeded/${1:-*}; do
   [ -f $d/tests_confirmed.txt ] && continue
   cd $WT && git checkout -q -- . && git apply $d/patch.diff || { echo "$id: patch does not apply"; continue; }
   t="${TESTS[$prop]:-tangelo/linq/tests}"
-  PYTHONPATH=$WT timeout 3000 /venv/bin/python -W ignore -m pytest -q -p no:cacheprovider $t 2>&1 | tail -15 > /tmp/seedtest_$id.txt
+  PYTHONPATH=$WT timeout 7000 /venv/bin/python -W ignore -m pytest -q -p no:cacheprovider $t 2>&1 | tail -15 > /tmp/seedtest_$id.txt
   { echo "cd <worktree> && PYTHONPATH=<worktree> /venv/bin/python -m pytest -q -p no:cacheprovider $t"; grep -E "passed|failed|FAILED" /tmp/seedtest_$id.txt; } > $d/tests_confirmed.txt
   python3 - $d/tests_confirmed.txt <<'PY' >> $d/tests_confirmed.txt
 import json, re, sys
